@@ -60,7 +60,10 @@ type Case struct {
 	Dest      HV                `json:"dest"`
 	CT        HV                `json:"ct"`
 	Extra     map[string]string `json:"extra,omitempty"`
-	Body      Body              `json:"body"`
+	// Dup: header fields sent more than once (name -> the values in order).
+	// Which of the values counts is left open: no label comes from them.
+	Dup  map[string][]string `json:"dup,omitempty"`
+	Body Body                `json:"body"`
 	// Transport anomalies (sequence family, request A only): the body is
 	// Data followed by BodyPad filler bytes; the body reader fails after
 	// delivering all of that; the request context is already cancelled.
@@ -82,6 +85,9 @@ type Case struct {
 	// case that has no other transport anomaly; obligations are unchanged.
 	Shape     string `json:"shape,omitempty"`
 	Cancelled bool   `json:"cancelled,omitempty"`
+	// BackendDown != "": every lookup of the backend fails (backendDownModes:
+	// error, 503, 404). Obligations are unchanged.
+	BackendDown string `json:"backend_down,omitempty"`
 	// Prev, when set, is executed immediately before this request in the
 	// same process, Repeat times (sequence family).
 	Prev   *Case `json:"prev,omitempty"`
@@ -176,7 +182,9 @@ func (l layout) mainPaths() []lp {
 func (l layout) allPaths() []lp {
 	return append(l.mainPaths(), lp{"new-collection", l.NewColl}, lp{"well-known", l.WellKnown},
 		lp{"odd", l.Obj + "?x=1"}, lp{"odd", strings.TrimSuffix(l.Principal, "/")}, lp{"odd", l.Home + "/work/"},
-		lp{"odd", "/%00"}, lp{"odd", l.Coll + "%ff.ics"}, lp{"odd", l.Coll + "../work/e1.ics"})
+		lp{"odd", "/%00"}, lp{"odd", l.Coll + "%ff.ics"}, lp{"odd", l.Coll + "../work/e1.ics"},
+		// the other forms of a request-target: asterisk-form, absolute-form
+		lp{"odd", "*"}, lp{"odd", "http://dav.example" + l.Coll}, lp{"odd", "http://other.example:8080" + l.Obj}, lp{"odd", "http://dav.example"})
 }
 
 func webdavMainPaths() []lp {
@@ -187,11 +195,12 @@ func webdavMainPaths() []lp {
 func webdavAllPaths() []lp {
 	return append(webdavMainPaths(), lp{"dir", "/dir"}, lp{"missing", "/missing/child"}, lp{"odd", "/dir/../file.txt"},
 		lp{"odd", "//dir//a.txt"}, lp{"odd", "/dir/a.txt?x=1"}, lp{"odd", "/%2e%2e/file.txt"}, lp{"odd", "/%00"},
-		lp{"odd", "/" + strings.Repeat("a", 300)}, lp{"odd", "/dir/%ff"})
+		lp{"odd", "/" + strings.Repeat("a", 300)}, lp{"odd", "/dir/%ff"},
+		lp{"odd", "*"}, lp{"odd", "http://dav.example/dir/"}, lp{"odd", "http://other.example:8080/file.txt"}, lp{"odd", "http://dav.example"})
 }
 
 func principalPaths() []lp {
-	return []lp{{"principal", "/u1/"}, {"root", "/"}, {"deeper", "/any/where/else"}}
+	return []lp{{"principal", "/u1/"}, {"root", "/"}, {"deeper", "/any/where/else"}, {"odd", "*"}, {"odd", "http://dav.example/u1/"}}
 }
 
 func pathsFor(target, prefix string, all bool) []lp {
@@ -219,8 +228,13 @@ type env struct {
 	pristine string
 	cal      *ical.Calendar
 	card     vcard.Card
-	wireLn   net.Listener
-	wire     chan *wireJob
+	// calLen, cardLen: the length of the objects as go-ical / go-vcard write
+	// them. The doubles announce that length: the handlers send the backend's
+	// ContentLength as Content-Length and write their own encoding of the
+	// data, so a well-behaved backend is one whose two answers agree.
+	calLen, cardLen int64
+	wireLn          net.Listener
+	wire            chan *wireJob
 }
 
 func newEnv(c *fw.Ctx) (*env, error) {
@@ -235,6 +249,14 @@ func newEnv(c *fw.Ctx) (*env, error) {
 		return nil, fmt.Errorf("seed vCard does not parse: %v", err)
 	}
 	e.card = card
+	var cb, vb bytes.Buffer
+	if err := ical.NewEncoder(&cb).Encode(cal); err != nil {
+		return nil, fmt.Errorf("seed iCalendar cannot be written: %v", err)
+	}
+	if err := vcard.NewEncoder(&vb).Encode(card); err != nil {
+		return nil, fmt.Errorf("seed vCard cannot be written: %v", err)
+	}
+	e.calLen, e.cardLen = int64(cb.Len()), int64(vb.Len())
 	if err := e.buildTree(); err != nil {
 		return nil, err
 	}
@@ -267,7 +289,7 @@ func (e *env) calBackend(prefix string) *doubles.CalBackend {
 	l := calLayout(prefix)
 	return &doubles.CalBackend{Principal: l.Principal, HomeSet: l.Home, LenientSlash: true,
 		Calendars: []caldav.Calendar{{Path: l.Coll, Name: "Work", Description: "work things", MaxResourceSize: 1 << 20, SupportedComponentSet: []string{"VEVENT", "VTODO"}}},
-		Objects:   []caldav.CalendarObject{{Path: l.Obj, ModTime: fixedTime, ContentLength: int64(len(seedICalEvent)), ETag: "etag-e1", Data: e.cal}},
+		Objects:   []caldav.CalendarObject{{Path: l.Obj, ModTime: fixedTime, ContentLength: e.calLen, ETag: "etag-e1", Data: e.cal}},
 	}
 }
 
@@ -275,7 +297,7 @@ func (e *env) cardBackend(prefix string) *doubles.CardBackend {
 	l := cardLayout(prefix)
 	return &doubles.CardBackend{Principal: l.Principal, HomeSet: l.Home,
 		Books:   []carddav.AddressBook{{Path: l.Coll, Name: "Friends", Description: "people", MaxResourceSize: 1 << 20}},
-		Objects: []carddav.AddressObject{{Path: l.Obj, ModTime: fixedTime, ContentLength: int64(len(seedVCard)), ETag: "etag-c1", Card: e.card}},
+		Objects: []carddav.AddressObject{{Path: l.Obj, ModTime: fixedTime, ContentLength: e.cardLen, ETag: "etag-c1", Card: e.card}},
 	}
 }
 
@@ -290,6 +312,11 @@ type outcome struct {
 	Calls     []string `json:"backend_calls,omitempty"`
 	Mutations []string `json:"mutations,omitempty"`
 	BuildErr  string   `json:"build_error,omitempty"`
+	// RespDefect != "": the answer is not a complete HTTP response (see
+	// responseDefect); RespBody then holds what was written.
+	RespDefect   string `json:"response_defect,omitempty"`
+	RespBody     string `json:"response_body,omitempty"`
+	WriteHeaders int    `json:"write_header_calls,omitempty"`
 }
 
 func buildRequest(cs *Case) (*http.Request, error) {
@@ -309,6 +336,9 @@ func buildRequest(cs *Case) (*http.Request, error) {
 	set("Content-Type", cs.CT)
 	for k, v := range cs.Extra {
 		h[http.CanonicalHeaderKey(k)] = []string{v}
+	}
+	for k, vs := range cs.Dup {
+		h[http.CanonicalHeaderKey(k)] = append([]string(nil), vs...)
 	}
 	req := &http.Request{Method: cs.Method, URL: u, Proto: "HTTP/1.1", ProtoMajor: 1, ProtoMinor: 1, Header: h,
 		Host: "dav.example", RequestURI: cs.Path, RemoteAddr: "127.0.0.1:1"}
@@ -373,12 +403,21 @@ func (e *env) prepare(cs *Case) (http.Handler, func(out *outcome), error) {
 	switch cs.Target {
 	case "webdav":
 		handler = &webdav.Handler{FileSystem: webdav.LocalFileSystem(e.fsRoot)}
+		if cs.BackendDown != "" {
+			handler = &webdav.Handler{FileSystem: downFS{backendDownErr(cs.BackendDown)}}
+		}
 	case "caldav":
 		calB = e.calBackend(strings.TrimSuffix(cs.Prefix, "/"))
 		handler = &caldav.Handler{Backend: calB, Prefix: cs.Prefix}
+		if cs.BackendDown != "" {
+			handler = &caldav.Handler{Backend: &downCal{calB, backendDownErr(cs.BackendDown)}, Prefix: cs.Prefix}
+		}
 	case "carddav":
 		cardB = e.cardBackend(strings.TrimSuffix(cs.Prefix, "/"))
 		handler = &carddav.Handler{Backend: cardB, Prefix: cs.Prefix}
+		if cs.BackendDown != "" {
+			handler = &carddav.Handler{Backend: &downCard{cardB, backendDownErr(cs.BackendDown)}, Prefix: cs.Prefix}
+		}
 	case "principal":
 		opts := &webdav.ServePrincipalOptions{CurrentUserPrincipalPath: "/u1/",
 			HomeSets:     []webdav.BackendSuppliedHomeSet{caldav.NewCalendarHomeSet("/u1/cal/"), carddav.NewAddressBookHomeSet("/u1/contacts/")},
@@ -431,8 +470,15 @@ func (e *env) exec(cs *Case) outcome {
 	}
 	rec := httptest.NewRecorder()
 	rec.Code = 0
-	panicked, val, stack := fw.Guard(func() { handler.ServeHTTP(rec, req) })
+	cw := &countingWriter{ResponseRecorder: rec}
+	panicked, val, stack := fw.Guard(func() { handler.ServeHTTP(cw, req) })
 	out.Status = rec.Code
+	out.WriteHeaders = cw.n
+	if !panicked {
+		if d := responseDefect(cs.Method, rec); d != "" {
+			out.RespDefect, out.RespBody = d, bodyText(rec.Body.Bytes())
+		}
+	}
 	if out.Status == 0 && !panicked {
 		// the handler returned without WriteHeader: net/http would send 200
 		// if anything was written, and also 200 for an empty response.
@@ -446,6 +492,66 @@ func (e *env) exec(cs *Case) outcome {
 	}
 	finish(&out)
 	return out
+}
+
+// countingWriter counts the handler's WriteHeader calls (evidence only).
+type countingWriter struct {
+	*httptest.ResponseRecorder
+	n int
+}
+
+func (w *countingWriter) WriteHeader(code int) {
+	w.n++
+	w.ResponseRecorder.WriteHeader(code)
+}
+
+// responseDefect names what makes the recorded answer an incomplete HTTP
+// response ("" = nothing). Only what is certain on the wire counts:
+//   - the handler announced a Content-Length and wrote another number of
+//     bytes (net/http cuts the surplus off or closes the connection early);
+//   - the answer is an XML document by its own account - a 207, a Content-Type
+//     naming XML when the header was written, or a body that opens with an XML
+//     declaration - and the body is not one well-formed document (it breaks
+//     off, or something follows the root element: an error text written
+//     after a part of the document had gone out);
+//   - a 207 whose document is not a DAV:multistatus.
+//
+// HEAD answers and statuses that carry no body are not looked at.
+func responseDefect(method string, rec *httptest.ResponseRecorder) string {
+	code := rec.Code
+	if method == "HEAD" || code == 0 || code < 200 || code == 204 || code == 304 {
+		return ""
+	}
+	hdr := rec.Result().Header
+	body := rec.Body.Bytes()
+	if cl := hdr.Get("Content-Length"); cl != "" {
+		if n, err := strconv.Atoi(cl); err == nil && n != len(body) {
+			return "announced Content-Length differs from the bytes written"
+		}
+	}
+	ct := strings.ToLower(hdr.Get("Content-Type"))
+	if i := strings.IndexByte(ct, ';'); i >= 0 {
+		ct = ct[:i]
+	}
+	ct = strings.TrimSpace(ct)
+	isXML := code == 207 || ct == "application/xml" || ct == "text/xml" || bytes.HasPrefix(body, []byte("<?xml"))
+	if !isXML {
+		return ""
+	}
+	if len(body) == 0 {
+		if code == 207 {
+			return "207 without a body"
+		}
+		return ""
+	}
+	root, err := xmltree.Parse(body)
+	if err != nil {
+		return "XML answer is not one well-formed document"
+	}
+	if code == 207 && root.Name() != "{"+nsD+"}multistatus" {
+		return "207 whose document is not a DAV:multistatus"
+	}
+	return ""
 }
 
 // ---- execution over a real socket ------------------------------------------
@@ -652,6 +758,10 @@ func reasons(cs *Case) []reason {
 	}
 	if cs.Level == "well-known" && cs.Target != "webdav" {
 		// answered by a redirect before the request is looked at
+		return nil
+	}
+	if len(cs.Dup) > 0 {
+		// a header field sent twice: which value counts is left open
 		return nil
 	}
 	if unreadable(cs) {
@@ -893,19 +1003,45 @@ type witness struct {
 	Observed outcome  `json:"observed"`
 }
 
-// questionable: the body carries a Quest label, it is the body the server
-// decodes for this request, and nothing else about the request is unusual.
-func questionable(cs *Case) bool {
-	if cs.Body.Quest == "" || cs.Method != "REPORT" || docTarget(cs.Body.Doc) != cs.Target {
-		return false
-	}
+// questionable names what about the request breaks a MUST of an RFC that the
+// statement's list of malformations does not name for this entry point ("" =
+// nothing): accepting the request and refusing it with a 4xx are both left
+// open, a server error is neither. Nothing else about the request may be
+// unusual.
+//   - the body carries a Quest label and is the body the server decodes for
+//     this request (a range whose end is not after its start in a CalDAV
+//     REPORT; more than one of allprop / propname / prop in a PROPFIND);
+//   - a REPORT carries a Depth value outside the grammar (the statement's
+//     servers take no Depth for their REPORTs).
+func questionable(cs *Case) string {
 	if cs.BodyPad > 0 || cs.fault() != "" || cs.Wire != "" || cs.Cancelled || unreadable(cs) {
-		return false
+		return ""
 	}
-	if cs.Level == "well-known" {
-		return false
+	if cs.Level == "well-known" || cs.Level == "odd" || cs.BackendDown != "" || len(cs.Dup) > 0 {
+		// (with the backend down the server error has a cause of its own)
+		return ""
 	}
-	return cs.CT.Set && cs.CT.Cls == "xml"
+	if !(cs.CT.Set && cs.CT.Cls == "xml") {
+		return ""
+	}
+	dav := cs.Target == "caldav" || cs.Target == "carddav"
+	switch cs.Method {
+	case "REPORT":
+		if !dav {
+			return ""
+		}
+		if cs.Body.Quest != "" && docTarget(cs.Body.Doc) == cs.Target {
+			return cs.Body.Doc + " " + cs.Body.Quest
+		}
+		if cs.Depth.Set && cs.Depth.Cls == "invalid" && cs.Body.Mut == "valid" && docTarget(cs.Body.Doc) == cs.Target {
+			return "depth:invalid on REPORT"
+		}
+	case "PROPFIND":
+		if cs.Body.Quest != "" && cs.Body.Doc == "propfind" && !(cs.Depth.Set && cs.Depth.Cls != "valid") {
+			return cs.Body.Doc + " " + cs.Body.Quest
+		}
+	}
+	return ""
 }
 
 func violates2(cs *Case, out outcome) bool {
@@ -1044,14 +1180,21 @@ func (e *env) run(cs *Case) {
 		c.Report(entryPoint(cs)+" | any | invalid status", fmt.Sprintf("handler produced status %d", out.Status), witness{cs, bodyText(cs.Body.Data), rs, out})
 		return
 	}
-	if len(rs) == 0 && questionable(cs) && out.Status >= 500 {
-		// Neither reading of such a request - malformed (4xx owed) or
-		// acceptable (the backend double is healthy, nothing fails) - makes
-		// it the server's error.
-		c.Report(entryPoint(cs)+" | "+cs.Body.Doc+" "+cs.Body.Quest+" | "+observedKey(out),
-			fmt.Sprintf("%s %s %s: the request breaks a MUST of the RFC (%s); accepting it and refusing it with a 4xx are both left open, but it was answered %s", cs.Target, cs.Method, cs.Path, cs.Body.Quest, observedString(out)),
-			witness{cs, bodyText(cs.Body.Data), rs, out})
+	if out.RespDefect != "" {
+		e.reportResp(cs, rs, out)
 		return
+	}
+	if q := questionable(cs); len(rs) == 0 && q != "" {
+		c.Observe("left open (5xx would be a finding)", entryPoint(cs)+" | "+q+" | "+strconv.Itoa(out.Status), 1)
+		if out.Status >= 500 {
+			// Neither reading of such a request - malformed (4xx owed) or
+			// acceptable (the backend double is healthy, nothing fails) -
+			// makes it the server's error.
+			c.Report(entryPoint(cs)+" | "+q+" | "+observedKey(out),
+				fmt.Sprintf("%s %s %s: the request breaks a MUST of the RFC (%s); accepting it and refusing it with a 4xx are both left open, but it was answered %s", cs.Target, cs.Method, cs.Path, q, observedString(out)),
+				witness{cs, bodyText(cs.Body.Data), rs, out})
+			return
+		}
 	}
 	if len(rs) == 0 || !violates2(cs, out) {
 		return
@@ -1144,6 +1287,9 @@ func (e *env) runSeq(cs *Case) {
 			}
 			c.Report(k, fmt.Sprintf("%s %s panicked: %s", b.Target, b.Method, out.PanicVal), w)
 			return true
+		case out.RespDefect != "":
+			e.reportResp(&b, rs, out)
+			return true
 		case len(rs) > 0 && violates2(&b, out):
 			if !seq {
 				e.report2(&b, rs, out)
@@ -1191,6 +1337,15 @@ func (e *env) runSeq(cs *Case) {
 	}
 }
 
+// reportResp: obligation (1) asks for a complete response. The key names the
+// entry point, the status class and the kind of incompleteness - not the
+// input, which is whatever made the handler take that path.
+func (e *env) reportResp(cs *Case, rs []reason, out outcome) {
+	e.c.Report(entryPoint(cs)+" | response "+strconv.Itoa(out.Status/100)+"xx | "+out.RespDefect,
+		fmt.Sprintf("%s %s %s was answered %d, but the answer is not a complete HTTP response: %s", cs.Target, cs.Method, cs.Path, out.Status, out.RespDefect),
+		witness{cs, bodyText(cs.Body.Data), rs, out})
+}
+
 func (e *env) report2(cs *Case, rs []reason, out outcome) {
 	var classes []string
 	for _, r := range rs {
@@ -1198,6 +1353,17 @@ func (e *env) report2(cs *Case, rs []reason, out outcome) {
 	}
 	key := entryPoint(cs) + " | " + strings.Join(classes, " + ") + " | " + observedKey(out)
 	what := fmt.Sprintf("%s %s %s: request is malformed by construction (%s) but was answered %s", cs.Target, cs.Method, cs.Path, strings.Join(classes, ", "), observedString(out))
+	if cs.BackendDown != "" && out.Status >= 500 {
+		// What went wrong is the order - the backend was consulted before the
+		// request had been validated - whatever the malformation and whatever
+		// error the backend gave: one key per entry point.
+		obs := fmt.Sprintf("status %dxx", out.Status/100)
+		if len(out.Mutations) > 0 {
+			obs += " + mutation"
+		}
+		key = entryPoint(cs) + " | malformed request, backend down | " + obs
+		what = fmt.Sprintf("%s %s %s with every backend lookup failing (%s): request is malformed by construction (%s) but was answered %s", cs.Target, cs.Method, cs.Path, cs.BackendDown, strings.Join(classes, ", "), observedString(out))
+	}
 	e.c.Report(key, what, witness{cs, bodyText(cs.Body.Data), rs, out})
 }
 
@@ -1224,13 +1390,23 @@ func (e *env) observe(cs *Case, rs []reason, out outcome) {
 	if len(out.Mutations) > 0 {
 		c.Observe("mutating requests", cs.Target+" "+mc, 1)
 	}
+	if cs.Wire == "" && !out.Panicked {
+		c.Observe("response completeness", fmt.Sprintf("%s | WriteHeader calls %d | %s", st, out.WriteHeaders, map[bool]string{true: "complete", false: out.RespDefect}[out.RespDefect == ""]), 1)
+	}
 	var classes []string
 	for _, r := range rs {
 		classes = append(classes, r.Class)
 		cls := r.Class
 		c.Observe("definitely malformed", cs.Target+" "+methodClass(mc)+" | "+cls+" | "+st, 1)
 	}
-	if len(rs) == 0 && out.Status >= 500 && out.Status != 501 {
+	if cs.BackendDown != "" {
+		lab := "unlabelled"
+		if len(rs) > 0 {
+			lab = "malformed by construction"
+		}
+		c.Observe("backend down: answers", cs.Target+" "+methodClass(mc)+" | "+lab+" | "+st, 1)
+	}
+	if len(rs) == 0 && out.Status >= 500 && out.Status != 501 && cs.BackendDown == "" {
 		m := cs.Body.Mut
 		if strings.HasPrefix(m, "deep-nest") {
 			m = "deep-nest"
@@ -1277,14 +1453,17 @@ func init() {
 		Replay: replay,
 		Rule: "requests = method x hierarchy level x handler (webdav.Handler on LocalFileSystem, caldav.Handler, carddav.Handler on recording backends, webdav.ServePrincipal) " +
 			"x header sets (Depth/Overwrite/Destination/Content-Type: valid, boundary, invalid) x bodies (valid seeds; truncation at every byte offset; one definite syntax error; wrong root; " +
-			"mutually exclusive elements; invalid date/enumeration/limit; iCalendar/vCard without BEGIN/END or with a line lacking its colon; random structural mutations, deep nesting, bodies up to 64 KiB, random bytes). " +
+			"mutually exclusive elements; invalid date (wrong shape; one field outside its range; every day 29-31 a month of a common, leap and century year lacks - in every start/end slot of time-range and expand, checked by the harness's own RFC 5545 reader)/enumeration/limit; iCalendar/vCard without BEGIN/END or with a line lacking its colon; random structural mutations, deep nesting, bodies up to 64 KiB, random bytes). " +
 			"plus a pairwise family (every malformed operator x every unusual-but-valid feature of the same REPORT document: selection forms, limits 0/1/huge/absent, expand, empty lists, Depth, Content-Type spelling) and a sequence family (request A fails on a transport path: body breaks off after a complete valid document, body of 1 MiB+1..5 MiB beginning with one, cancelled context; request B, malformed by construction, follows in the same process, 3 times; B alone is judged first). " +
+			"Every eleventh case is sent once more to a handler whose backend is down (every lookup fails with a plain error, a 503 or a 404; file system: every operation fails): obligations unchanged, a malformed request is owed its 4xx before the backend is asked. Sequences also for uploads (a PUT that fails on a transport path, then a PUT of an unparseable object). Header fields sent twice (Depth, Overwrite, Destination, Content-Type: valid+invalid in either order), CONNECT, asterisk-form and absolute-form request-targets: obligation (1) only. " +
+			"Every answer not taken from a socket is recorded in full and must be a complete HTTP response: an announced Content-Length equals the bytes written; an answer that is XML by its own account (207, an XML Content-Type, a body opening with an XML declaration) is one well-formed document by the harness's XML reader; a 207 is a DAV:multistatus. " +
 			"Each request is served by ServeHTTP under recover(); obligation (2) (4xx, no mutating backend call, served tree unchanged) applies only when a component is malformed BY CONSTRUCTION (label set by the operator, cross-checked by the harness XML reader, never by encoding/xml unmarshalling). " +
 			"distinct_nontrivial counts distinct (handler, method, level, body family, operator, header classes, malformed classes, status) tuples.",
 		Assumptions: []string{
 			"requests are built the way net/http hands them to a handler (parsed request-target, canonical header keys, http.NoBody for empty bodies); request-targets net/http would refuse are not sent",
-			"backends are well-behaved doubles: recording CalDAV/CardDAV backends with a fixed valid layout, LocalFileSystem on a private tmpfs tree rebuilt after every change",
-			"don't-cares: trailing garbage after the root, allprop+propname, unknown elements/attributes, missing Content-Type on PROPFIND, other RFCs' REPORT roots, 501 for COPY/MOVE on CalDAV/CardDAV, case variants of Depth/Overwrite values, the /.well-known redirect, semantically impossible but syntactically valid dates, nresults 0 or overflowing",
+			"backends are well-behaved doubles: recording CalDAV/CardDAV backends with a fixed valid layout whose objects announce the length of their go-ical / go-vcard encoding (the handlers send the backend's ContentLength as Content-Length and write their own encoding), LocalFileSystem on a private tmpfs tree rebuilt after every change; in the backend-down family every lookup fails and nothing else",
+			"left open, a server error being a finding all the same (table 'left open'): a range whose end is not after its start, more than one of allprop/propname/prop in a PROPFIND, a Depth value outside the grammar on a REPORT; HEAD answers, 1xx/204/304 and answers read from a socket are not checked for completeness",
+			"don't-cares: trailing garbage after the root, allprop+propname, unknown elements/attributes, missing Content-Type on PROPFIND, other RFCs' REPORT roots, 501 for COPY/MOVE on CalDAV/CardDAV, case variants of Depth/Overwrite values, the /.well-known redirect, dates that are valid by the grammar but unusual (year 0000, second 60, the ends of the four-digit range) or that read to the same instant under a lenient reader (surrounding white space, lower-case t/z, a fraction of a second), nresults 0 or overflowing",
 			"a process-fatal error (stack exhaustion) is attributed to the journalled case by the driver",
 		},
 		MinEvals:    func(t string) int64 { return 30000 },
